@@ -273,8 +273,8 @@ Theorem c10_handoff_exists_guard_refuted :
 Proof. exact handoff_exists_guard_refuted. Qed.
 Print Assumptions c10_handoff_exists_guard_refuted.
 
-(* the guard as built does not confine the id to the blobs directory: "../x" passes when <artifacts>/x is a regular
-   file (finding S30; replayed on the real store) - the stronger statement "accepted => a blob OF THE STORE" is false *)
+(* the guard AS FOUND (`!id.is_empty() && is_file`) did not confine the id to the blobs directory: "../x" passed when
+   <artifacts>/x is a regular file (finding S30; replayed on the real store; repaired in /repo) *)
 Theorem c10_artifact_guard_confined_to_store_refuted :
   exists f base id p c,
     guard_eval GNonEmptyIsFile f base id = true /\ resolve f base id = WAt p (File c) /\ under_base base p = false.
@@ -290,6 +290,37 @@ Theorem c10_plain_artifact_id_confined_to_store : forall f base id,
               /\ read_back f base id = Some c.
 Proof. exact guard_plain_confined. Qed.
 Print Assumptions c10_plain_artifact_id_confined_to_store.
+
+(* since the repair of S30 (artifact_exists: the id is one normal path component && is_file): the handoff over the
+   file system, at the guard read from the source on this run, records only ids that are the entry of that name in
+   the blobs directory - an accepted handoff's summary is a blob OF THE STORE whose bytes read back *)
+Theorem c10_handoff_caller_artifact_in_store : forall g f base view l parent sel md a id fr l' arts' c cut om,
+  guard_confines g = true ->
+  handoff_fs g f base view l parent sel md a id fr = (l', arts', Ok (c, cut, om)) ->
+  l' = l ++ [created_frame c (f_e0 fr); handoff_frame c (f_e1 fr) parent cut om (Some a) md]
+  /\ exists q content, resolve f base [46] = WAt q Dir /\ resolve f base id = WAt (q ++ [id]) (File content)
+                        /\ read_back f base id = Some content.
+Proof. exact handoff_fs_summary_in_store. Qed.
+Print Assumptions c10_handoff_caller_artifact_in_store.
+
+Theorem c10_handoff_caller_artifact_in_store_as_built : forall f base view l parent sel md a id fr l' arts' c cut om,
+  handoff_fs gen_art_guard f base view l parent sel md a id fr = (l', arts', Ok (c, cut, om)) ->
+  l' = l ++ [created_frame c (f_e0 fr); handoff_frame c (f_e1 fr) parent cut om (Some a) md]
+  /\ exists q content, resolve f base [46] = WAt q Dir /\ resolve f base id = WAt (q ++ [id]) (File content)
+                        /\ read_back f base id = Some content.
+Proof. exact (fun f base view l parent sel md a id fr l' arts' c cut om => handoff_fs_summary_in_store gen_art_guard f base view l parent sel md a id fr l' arts' c cut om eq_refl). Qed.
+Print Assumptions c10_handoff_caller_artifact_in_store_as_built.
+
+Example c10_demo_repaired_guard :
+  guard_eval GPlainIsFile w_fs w_base [107] = true
+  /\ guard_eval GPlainIsFile w_fs w_base [46; 47; 107] = false
+  /\ guard_eval GPlainIsFile w_fs w_base [47; 98; 47; 107] = false
+  /\ guard_eval GPlainIsFile w_fs w_base [46; 46; 47; 120] = false
+  /\ guard_eval GPlainIsFile w_fs w_base [] = false /\ guard_eval GPlainIsFile w_fs w_base [46] = false
+  /\ guard_eval GPlainIsFile w_fs w_base [46; 46] = false /\ guard_eval GPlainIsFile w_fs w_base [115] = false
+  /\ guard_eval GPlainIsFile w_fs w_base [107; 47] = false
+  /\ w_handoff GPlainIsFile [46; 46; 47; 120] = (demo_log, [], Err ENoArtifact).
+Proof. exact repaired_guard_examples. Qed.
 
 Example c10_demo_plain_guard :
   guard_plain w_fs w_base [46; 46; 47; 120] = false /\ guard_plain w_fs w_base [107] = true
